@@ -338,6 +338,19 @@ def run_C05(tier, seed):
                         if d.earliest_start_time(o) != est:
                             res.breach("point-queries:earliest_start_time", f"job {j}: {d.earliest_start_time(o)} != {est}",
                                        jobs=jobs, history=model.history)
+                # (per scheduled operation, against the recomputed current time)
+                now = want["current_time"]
+                for lst in d.schedule.schedule:
+                    for so in lst:
+                        end = so.start_time + so.operation.duration
+                        if d.remaining_duration(so) != end - max(so.start_time, now):
+                            res.breach("point-queries:remaining_duration", f"{d.remaining_duration(so)} for an operation "
+                                       f"scheduled at [{so.start_time}, {end}) with current time {now}", jobs=jobs,
+                                       history=model.history, filter=flt_name)
+                        if d.is_ongoing(so) != (so.start_time <= now):
+                            res.breach("point-queries:is_ongoing", f"is_ongoing = {d.is_ongoing(so)} for an operation "
+                                       f"scheduled at [{so.start_time}, {end}) with current time {now}", jobs=jobs,
+                                       history=model.history, filter=flt_name)
                 # the observer mirror
                 res.count("unscheduled-observer-mirror")
                 _, d2 = mk(jobs, Model(jobs), None)
